@@ -265,6 +265,8 @@ def run_property(prop, tier, only_seeds=None, only_ops=None):
                 stats["inconclusive"] += 1 if inst.get("c04_inconclusive") else 0
                 if inst.get("c04_unreproduced"):
                     unrepro.append({"seed": res["seed"], "op": inst["op"], "args": inst["args"], "what": inst["c04_unreproduced"]})
+                if inst.get("c04_unbounded"):
+                    stats["c04_unbounded_" + inst["c04_unbounded"]] += 1
                 if inst.get("c04_compile"):
                     stats["compiled_" + ("ok" if inst["c04_compile"] == "ok" else "rejected")] += 1
             if prop == "C07":
@@ -315,6 +317,7 @@ def run_property(prop, tier, only_seeds=None, only_ops=None):
     assumptions = [
         "sizes in [1,N], index args in [idx_min,idx_max], bools free, buffer contents arbitrary reals, initial config arbitrary (control-typed fields boxed like index args)",
         "reals instead of IEEE floats; integer-typed data has no arithmetic meaning",
+        "C04 only: status_counts.c04_unbounded_* report the unbounded variant (sizes / index arguments unbounded, loops summarised by one arbitrary iteration, written configuration fields havoc'd): 'holds' = all safety obligations of the derived procedure valid for ALL sizes; posed for every instance in thorough, a 10% sample in quick; 'inconclusive' is never counted as held",
         "program/schedule quantifiers are covered by the stated family (corpus seeds x introspected ops x generated argument candidates), not by the solver",
         "data multiplication first abstracted by a symmetric uninterpreted function (sound), exact arithmetic on demand",
         "inputs on which the original procedure itself violates a safety obligation are excluded",
